@@ -25,7 +25,7 @@ RULE = (
     "Non-trivial = distinct (block lengths, gaps, strand) shape with >=2 non-empty blocks, or minus strand, or an "
     "empty block; for pairs the pair of shapes plus relation."
 )
-SCOPE = {"quick": {"G1": 8, "K1": 3, "G2": 5, "K2": 2, "NR": 6000}, "thorough": {"G1": 11, "K1": 3, "G2": 7, "K2": 2, "NR": 20000}}
+SCOPE = {"quick": {"G1": 8, "K1": 3, "G2": 5, "K2": 2, "NR": 6000}, "thorough": {"G1": 11, "K1": 3, "G2": 7, "K2": 2, "NR": 80000}}
 EXHAUSTIVE_SCOPE = {t: f"layouts: genome {s['G1']}, <= {s['K1']} blocks; pairs: genome {s['G2']}, <= {s['K2']} blocks" for t, s in SCOPE.items()}
 FLOOR = {"quick": 1500, "thorough": 5000}
 REQUIRED_MONITORS = ["map.rel-to-parent", "map.parent-to-rel", "map.rel-interval", "map.parent-location", "map.feature-wrappers", "map.derived"]
